@@ -5,6 +5,7 @@ import (
 	"encoding/json"
 	"flag"
 	"fmt"
+	"github.com/go-openapi/loads"
 	"math/rand"
 	"os"
 	"path/filepath"
@@ -41,7 +42,7 @@ var rexpSubst = []map[string]string{
 	{"p": "", "q": "b", "bad": "ab\\"},
 }
 
-var rexpProbes = []string{"", "a", "A", "ab", "a ", "ba", "xx", "xxx", "bx", "abc", "Ab", " a", "5", ":", "z-a", "o", "AB", "B", "a\nb"}
+var rexpProbes = []string{"", "a", "A", "ab", "a ", "ba", "xx", "xxx", "bx", "abc", "Ab", " a", "5", ":", "z-a", "o", "AB", "B", "a\nb", "{\nab\n}", "{a b}", "x{y}\nz", "xab", "cab$", "pet_id"}
 
 // fact: what Go's regexp package says, compiled directly from the pattern text (never through validate's cache)
 func rexpFact(pattern, s string) string {
@@ -257,7 +258,11 @@ func driveRexp(args []string) error {
 		// invalid patterns next to the valid pattern their syntax error quotes
 		"[0-9a-\\d]+", "\\d", "[[:foo:]]", "[:foo:]", "^[z-a]$", "z-a", "ab\\", "",
 		// inline flags: they belong to their own pattern only, whatever other patterns stand next to it in a keyword
-		"(?i)^x", "(?i)zz$", "(?s)^q.q$", "(?U)^z+"}
+		"(?i)^x", "(?i)zz$", "(?s)^q.q$", "(?U)^z+",
+		// the texts of the expressions the library compiles for its own use (they share the cache with the caller's patterns)
+		"{[^{}]+?}", ".*[{}\\s]+.*", "{.*[{}\\s]+.*}",
+		// unanchored expressions that begin with literal text
+		"_id$", "ab$", "b\\$"}
 	type rec struct {
 		ticket      int
 		g, pid      int
@@ -272,6 +277,12 @@ func driveRexp(args []string) error {
 	var samples []interface{}
 	for round := 0; round < *rounds; round++ {
 		validate.VerifResetRegexpCache()
+		if round%2 == 0 {
+			// a specification validation first: the library's own expressions enter the cache before the caller's patterns
+			if d, err := loads.Analyzed(json.RawMessage(`{"swagger":"2.0","info":{"title":"r","version":"1"},"paths":{"/a/{id}/b c":{"get":{"operationId":"r","parameters":[{"name":"id","in":"path","required":true,"type":"string"}],"responses":{"200":{"description":"ok"}}}}}}`), ""); err == nil {
+				_, _ = validate.NewSpecValidator(d.Schema(), strfmt.Default).Validate(d)
+			}
+		}
 		ng := []int{1, 2, 4, 8, 16, 32, 64}[round%7]
 		var mu sync.Mutex
 		var recs []rec
@@ -285,7 +296,7 @@ func driveRexp(args []string) error {
 				for k := 0; k < *n; k++ {
 					pid := gr.Intn(len(pats))
 					s := rexpProbes[gr.Intn(len(rexpProbes))]
-					via := []string{"Pattern", "pattern", "patternProperties", "patternPropertiesClosed"}[gr.Intn(4)]
+					via := []string{"Pattern", "pattern", "patternProperties", "patternPropertiesClosed", "patternPropertiesElseRejected"}[gr.Intn(5)]
 					res := ""
 					var extra []int
 					switch via {
@@ -295,6 +306,24 @@ func driveRexp(args []string) error {
 						sch := spec.StringProperty()
 						sch.Pattern = pats[pid]
 						if validate.AgainstSchema(sch, s, strfmt.Default) == nil {
+							res = "match"
+						} else {
+							res = "error"
+						}
+					case "patternPropertiesElseRejected":
+						// additionalProperties given as a SCHEMA (one that rejects everything): a member is accepted exactly when
+						// its name matches one of the (valid) patterns, whose own schemas accept everything
+						sch := &spec.Schema{}
+						sch.PatternProperties = map[string]spec.Schema{pats[pid]: {}}
+						for j := gr.Intn(3); j > 0; j-- {
+							e := gr.Intn(len(pats))
+							if _, dup := sch.PatternProperties[pats[e]]; !dup {
+								sch.PatternProperties[pats[e]] = spec.Schema{}
+								extra = append(extra, e)
+							}
+						}
+						sch.AdditionalProperties = &spec.SchemaOrBool{Allows: true, Schema: &spec.Schema{SchemaProps: spec.SchemaProps{Not: &spec.Schema{}}}}
+						if validate.AgainstSchema(sch, map[string]interface{}{s: 1}, strfmt.Default) == nil {
 							res = "match"
 						} else {
 							res = "error"
